@@ -647,7 +647,7 @@ func (c *c04Exec) fileOpDone(op byte, i int, err error, f c04File) {
 // waitApplied waits until the FSM has (re-)applied everything up to index want. The bound
 // is generous: replay takes milliseconds; what it distinguishes is "never".
 func (c *c04Exec) waitApplied(want uint64) bool {
-	dl := time.Now().Add(60 * time.Second)
+	dl := time.Now().Add(120 * time.Second)
 	for time.Now().Before(dl) {
 		if c.s.fsmIdx.Load() >= want && c.s.raft.AppliedIndex() >= c.s.raft.LastIndex() && c.s.raft.State() == raft.Leader {
 			return true
